@@ -341,9 +341,11 @@ def run_decoders(ctx, cov):
         ops = [l for l in p.stdout.splitlines() if l and not l.startswith("#") and ".enc" not in l.split(" ")[0]]
         if p.returncode != 0 or not ops:
             continue
-        if not ctx.thorough():
-            ops = ops[::4]
+        if not ctx.thorough() and area == "huff":
+            ops = ops[::4]          # hpackdec ops are stateful sequences: never thinned
         o, i, m = ctx.gen_run_compare(ctx.pid, area, ctx.tier, ctx.seed, ctx.log, extra_ops=ops)
+        m = [x.split(" ;; ", 1)[0] for x in m]      # the HPACK driver's Spec side channel is judged by C03
+        i = [x.split(" ;; ", 1)[0] for x in i]
         c, diffs = compare(ctx, area, o, i, m)
         for op, a in zip(o, i):
             if a.startswith("panic"):
